@@ -27,7 +27,7 @@ VARIABLES nvars,     \* number of variables created so far
           node,      \* node[id] = <<id, var, lo, hi>>, append-only
           root,      \* root[slot] = pointer
           den,       \* den[slot] = denotation (set of assignments over NV variables)
-          loose,     \* loose[slot] = TRUE for smoothed (deliberately non-reduced) diagrams
+          loose,     \* loose[slot] = n for a diagram smoothed over the first n levels (deliberately non-reduced), else -1
           canon,     \* function: denotation |-> the pointer of every reduced diagram denoting it
           contents,  \* set of <<var, lo, hi>> of all nodes
           hashes     \* function: <<prime, denotation>> |-> semantic hash (limbs) seen so far
@@ -41,7 +41,7 @@ ResetState(n0, order) ==
   /\ node' = << >>
   /\ root' = [s \in Slots |-> IF s = 1 THEN 1 ELSE 0]
   /\ den' = [s \in Slots |-> IF s = 1 THEN FalseFn ELSE TrueFn]
-  /\ loose' = [s \in Slots |-> FALSE]
+  /\ loose' = [s \in Slots |-> -1]
   /\ canon' = (TrueFn :> 0) @@ (FalseFn :> 1)
   /\ contents' = {}
 
@@ -129,7 +129,7 @@ Produce(e) ==
   /\ nvars' = nv2 /\ ord' = ord2
   /\ root' = [root EXCEPT ![e.res] = e.root]
   /\ den' = [den EXCEPT ![e.res] = d]
-  /\ loose' = [loose EXCEPT ![e.res] = isLoose]
+  /\ loose' = [loose EXCEPT ![e.res] = IF isLoose THEN e.a[2] ELSE -1]
   /\ UNCHANGED hashes
 
 (***************************************************************************)
@@ -196,8 +196,10 @@ QueryOK(e) ==
          /\ e.val = Comps(WMC(e.sr, e.p, f, e.w, WX(e.wexp, nvars), nvars), nvars * e.wexp)
          /\ ("den" \in DOMAIN e) => e.den = 1
          /\ ("tail0" \in DOMAIN e) => e.tail0)
-    [] e.ev = "uwmc" -> Req("C07",                                                \* arbitrary weights
-         /\ e.val = Comps(UWmc(e.sr, e.p, f, ord, e.w, WX(e.wexp, nvars)), nvars * e.wexp)
+    [] e.ev = "uwmc" -> Req(IF loose[e.a[1]] >= 0 THEN "C08" ELSE "C07",          \* arbitrary weights
+         /\ e.val = Comps(IF loose[e.a[1]] >= 0
+                            THEN SWmc(e.sr, e.p, f, ord, loose[e.a[1]], e.w, WX(e.wexp, nvars))    \* C08: exact on a smoothed diagram
+                            ELSE UWmc(e.sr, e.p, f, ord, e.w, WX(e.wexp, nvars)), nvars * e.wexp)
          /\ ("den" \in DOMAIN e) => e.den = 1
          /\ ("tail0" \in DOMAIN e) => e.tail0)
     [] e.ev = "semhash" -> Req("C11", HashOK(e))
@@ -205,7 +207,8 @@ QueryOK(e) ==
     [] e.ev \in {"topvar", "mc", "wmcr", "wmcc", "wmcp", "json", "cnt"} -> TRUE     \* C ABI queries: judged by the twin only
 
 (* a numeric answer that is not exactly representable where the property demands an exact value *)
-PropOfQuery(e) == CASE e.ev \in {"wmc", "uwmc", "eval"} -> "C07"
+PropOfQuery(e) == CASE e.ev = "uwmc" /\ loose[e.a[1]] >= 0 -> "C08"
+                    [] e.ev \in {"wmc", "uwmc", "eval"} -> "C07"
                     [] e.ev \in {"mmap", "meu", "bb"} -> "C12"
                     [] e.ev = "semhash" -> "C11"
                     [] e.ev \in {"mc", "wmcr", "wmcc", "wmcp"} -> TwinProp
